@@ -218,6 +218,9 @@ func FuzzVF_C34_Restore(f *testing.F) {
 	hb := vfkit.NewBatch(0, c34FirstTs, []vfkit.Record{{TsDelta: 0, Value: []byte("a")}, {TsDelta: 50, Key: []byte("k"), Headers: []vfkit.RecHeader{{Key: "h"}}}})
 	s2, i2, _ := c34BrokerSegment([][]byte{hb.Encode()})
 	f.Add(mk(120, s2, i2))
+	for _, v := range c34BatchLenEdges {
+		f.Add(mk(120, c34WithBatchLen(s2, uint32(v)), i2))
+	}
 	f.Fuzz(func(t *testing.T, data []byte) {
 		if len(data) > 1<<16 {
 			return
